@@ -42,28 +42,28 @@ theorem cstr_encode_decode (bs s rest : Bytes) (h : decCStr bs = some (s, rest))
     (∀ b ∈ s, b ≠ 0) ∧ encCStr s ++ rest = bs := decCStr_spec h
 
 /-! ## box header: 32-bit size, `size == 1` + 64-bit largesize, `uuid` types -/
-theorem header_decode_encode (t : BoxType) (large : Bool) (size : Nat) (rest : Bytes)
+theorem header_decode_encode (tail : Nat) (t : BoxType) (large : Bool) (size : Nat) (rest : Bytes)
     (ht : t.Wf) (hs : sizeOk large size) :
-    decHeader (encHeader t large size ++ rest)
+    decHeader tail (encHeader t large size ++ rest)
       = some ({ typ := t, large := large, toEnd := false, size := size }, rest) :=
-  decHeader_encHeader t large size rest ht hs
+  decHeader_encHeader tail t large size rest ht hs
 
 /-- every header the parser accepts with an explicit size (32- or 64-bit form,
 plain or `uuid` type) is re-encoded byte for byte -/
-theorem header_encode_decode_partial (bs : Bytes) (h : Header) (rest : Bytes)
-    (hd : decHeader bs = some (h, rest)) (hexplicit : h.toEnd = false) :
+theorem header_encode_decode_partial (tail : Nat) (bs : Bytes) (h : Header) (rest : Bytes)
+    (hd : decHeader tail bs = some (h, rest)) (hexplicit : h.toEnd = false) :
     h.typ.Wf ∧ sizeOk h.large h.size ∧ encHeader h.typ h.large h.size ++ rest = bs :=
   ⟨(decHeader_spec hd).1, ((decHeader_spec hd).2.1 hexplicit).1, ((decHeader_spec hd).2.1 hexplicit).2⟩
 
 /-- non-vacuity: a 64-bit `uuid` header satisfies the hypotheses -/
-example : decHeader ([0,0,0,1, 117,117,105,100, 0,0,0,0,0,0,0,33,
+example : decHeader 0 ([0,0,0,1, 117,117,105,100, 0,0,0,0,0,0,0,33,
       1,2,3,4,5,6,7,8,9,10,11,12,13,14,15,16, 99]) =
     some ({ typ := .uuid [1,2,3,4,5,6,7,8,9,10,11,12,13,14,15,16], large := true, toEnd := false,
             size := 33 }, [99]) := by decide
 
 /-- negation at the excluded point: `00000000 'mdat' 01 02` is accepted (size to
 end of input = 10) and re-encoded as `0000000a 'mdat' 01 02` -/
-example : decHeader [0,0,0,0, 109,100,97,116, 1,2] =
+example : decHeader 0 [0,0,0,0, 109,100,97,116, 1,2] =
       some ({ typ := .std [109,100,97,116], large := false, toEnd := true, size := 10 }, [1,2]) ∧
     encHeader (.std [109,100,97,116]) false 10 ++ [1,2] ≠ [0,0,0,0, 109,100,97,116, 1,2] := by
   decide
@@ -162,8 +162,8 @@ theorem tree_roundtrip (ctx : SencCtx) (cs : List Box) (h : BoxesWf ctx cs) :
 
 /-- the size field of every box is the length of its encoding … -/
 theorem encode_size (ctx : SencCtx) (b : Box) (tail : Bytes) (h : BoxWf ctx b) :
-    ∃ hdr rest, decHeader (encBox b ++ tail) = some (hdr, rest) ∧ hdr.size = (encBox b).length := by
-  have := decHeader_encBox ctx b tail h
+    ∃ hdr rest, decHeader 0 (encBox b ++ tail) = some (hdr, rest) ∧ hdr.size = (encBox b).length := by
+  have := decHeader_encBox ctx 0 b tail h
   cases b with
   | leaf t l p => exact ⟨_, _, this, by simp [encBox_leaf_length]⟩
   | node t l cs => exact ⟨_, _, this, by simp [encBox_node_length]⟩
@@ -172,7 +172,7 @@ theorem encode_size (ctx : SencCtx) (b : Box) (tail : Bytes) (h : BoxWf ctx b) :
 every container fill it exactly -/
 theorem encode_children_fill (ctx : SencCtx) (cs : List Box) (h : BoxesWf ctx cs) :
     walkOk (encBoxes cs).length (encBoxes cs) = true :=
-  walkOk_of_decBoxes ctx _ _ cs (decFile_encBoxes ctx cs h)
+  walkOk_of_decFile ctx _ cs (decFile_encBoxes ctx cs h)
 
 /-! ## edits -/
 /-- `update_size` keeps every stored `size` attribute equal to the encoded
